@@ -62,7 +62,7 @@ def device(ranges):
     return Device(spec)
 
 
-DEVIATIONS = ["sq_amp", "sq_phase", "bs_phase", "order", "bs_range", "r_range", "m_range", "m_gap", "timebins", "concurrent"]
+DEVIATIONS = ["sq_amp", "sq_phase", "bs_phase", "bs_phase_array", "order", "bs_range", "r_range", "m_range", "m_gap", "timebins", "concurrent"]
 RANGE_DEVS = {"bs_range", "r_range", "m_range", "m_gap"}
 
 
@@ -84,14 +84,14 @@ def build(dev):
     prog = TDMProgram(N=N)
     with warnings.catch_warnings():
         warnings.simplefilter("ignore")
-        with prog.context(bs, r, m) as (p, q):
+        with prog.context(bs, r, m, [0.0] * T) as (p, q):
             a, b = (q[N - 1], q[N - 2])
             ops.Sgate(0.3 if "sq_amp" in dev else R0, 0.4 if "sq_phase" in dev else 0.0) | a
             if "order" in dev:
                 ops.Rgate(p[1]) | a
-                ops.BSgate(p[0], 0.3 if "bs_phase" in dev else 0.0) | (a, b)
+                ops.BSgate(p[0], p[3] if "bs_phase_array" in dev else (0.3 if "bs_phase" in dev else 0.0)) | (a, b)
             else:
-                ops.BSgate(p[0], 0.3 if "bs_phase" in dev else 0.0) | (a, b)
+                ops.BSgate(p[0], p[3] if "bs_phase_array" in dev else (0.3 if "bs_phase" in dev else 0.0)) | (a, b)
                 ops.Rgate(p[1]) | a
             ops.MeasureHomodyne(p[2]) | b
     return prog, [bs, r, m]
@@ -127,7 +127,7 @@ def check(dev_names, ranges, explicit, res):
     fixed = [float(out.circuit[0].op.p[0]), float(out.circuit[0].op.p[1]), float(out.circuit[1].op.p[1])]
     if np.max(np.abs(np.array(fixed) - np.array([R0, 0.0, 0.0]))) > 1e-12:
         res.violation("C12|TDM|fixed-values", f"compiled circuit carries hard-coded values {fixed}, layout says {[R0, 0.0, 0.0]}", case)
-    params = [list(map(float, a)) for a in out.tdm_params]
+    params = [list(map(float, a)) for a in out.tdm_params[:3]]  # the fourth array is only used by the bs_phase_array deviation
     src = [list(map(float, a)) for a in arrays]
     if len(params) != len(src) or any(len(x) != len(y) or any(abs(((u - v) + PI) % (2 * PI) - PI) > 1e-9 for u, v in zip(x, y)) for x, y in zip(params, src)):
         res.violation("C12|TDM|arrays-changed", "the TDM compiler changed the parameter arrays of a conforming program (beyond multiples of 2 pi)", case)
